@@ -60,6 +60,20 @@ Theorem c10_store_touches_only_addressed :
 Proof. exact seq_store_meaning. Qed.
 Print Assumptions c10_store_touches_only_addressed.
 
+(** (a) when the Junk auto-move FAILS - no mailbox is named Spam (RENAME Spam x,
+    DELETE Spam), MoveMessageToMailbox answers "destination mailbox not found" -
+    an accepted STORE / UID STORE in INBOX stores Junk and every flag named with
+    it in place, exactly as for any other flag (this branch has classify = None,
+    so c10_step_exact and c10_history_exact cover it too; stated here on its own) *)
+Theorem c10_failed_move_stores_in_place :
+  forall e s silent mb q item new it,
+  uniq_keys (links s) -> item_of item = Some it -> flags_valid new = true ->
+  spam s = None -> mb = inbox_id e ->
+  Forall2 (row_ok mb (seq_targets (links s) mb q) it new) (links s) (links (step e s (OStore false silent mb q item new)))
+  /\ Forall2 (row_ok mb (expand_uid (links s) mb q) it new) (links s) (links (step e s (OUidStore false silent mb q item new))).
+Proof. exact failed_move_stores_in_place. Qed.
+Print Assumptions c10_failed_move_stores_in_place.
+
 (** the targets of a sequence set are the uids of the rows at the denoted positions *)
 Theorem c10_seq_targets : forall ls mb q u,
   In u (seq_targets ls mb q) <->
@@ -221,3 +235,15 @@ Example c10_fixed_flag_atom :
             OUidStore false false 1 (one 1) IT_FLAGS [S_ "a\b"]; OAppend 1 [S_ "a""b"]; OAppend 1 [S_ "\*"]] in
   view (links (run env0 st0 h)) 1 = [(1, [S_ "kw"])] /\ next_of (nexts (run env0 st0 h)) 1 = 2.
 Proof. exact fixed_flag_atom. Qed.
+
+Example c10_move_fails_example :
+  let h := [OAppend 1 [S_ "kw"]; OAppend 1 []; ODropSpam false;
+            OStore false false 1 (one 2) IT_ADD [JUNK; S_ "\Flagged"];
+            OUidStore false true 1 (one 1) IT_FLAGS [JUNK; SEEN]] in
+  hist_class env0 st0 h = None
+  /\ view (links (run env0 st0 h)) 1 = [(1, [JUNK; SEEN]); (2, [JUNK; S_ "\Flagged"])]
+  /\ unseen_count (links (run env0 st0 h)) 1 = 1
+  /\ search (links (run env0 st0 h)) 1 (KHas JUNK) = [1; 2]
+  /\ view (links (run env0 st0 (h ++ [OCreateSpam 6; OUidStore false false 1 (one 2) IT_DEL [JUNK];
+                                        OUidStore false false 1 (one 2) IT_ADD [JUNK]]))) 6 = [(1, [S_ "\Flagged"; JUNK])].
+Proof. exact move_fails_example. Qed.
